@@ -77,6 +77,35 @@ def key_of(e):
     return "%s/%s/%s" % (e["fn"], e["enum"], "+".join(e["values"]))
 
 
+def dart_alloc_rules(ck, rule, facts):
+    """Dart's allocator lookups (method parameters and struct fields) recurse into DiplomatOption.  Shared with C04."""
+    tool = facts.tool
+    # Dart: the allocator lookup recurses into DiplomatOption
+    dg = tool.fn("dart::TyGenContext::gen_method_info")
+    an = [x for x in tool.fn_list if x["path"].endswith("::alloc_name") and "::dart::" in x["path"] and "hir" in x]
+    rec_by_fn = {}
+    for a_ in an:
+        ok_rec = False
+        for x in C.walk(C.fn_body(a_)):
+            pats = []
+            if x.get("k") == "if":
+                pats = [y["pat"] for y in C.walk(x["c"]) if y.get("k") == "let" and isinstance(y.get("pat"), dict)]
+                body_ = x["t"]
+            elif x.get("k") == "match":
+                pats = []
+                for arm in x["arms"]:
+                    if (arm["pat"].get("v") or "").split("::")[-1] == "DiplomatOption" and any(z.get("k") == "call" and (C.callee(z) or "").endswith("alloc_name") for z in C.walk(arm["b"])):
+                        ok_rec = True
+                continue
+            for p_ in pats:
+                if (p_.get("v") or "").split("::")[-1] == "DiplomatOption" and any(z.get("k") == "call" and (C.callee(z) or "").endswith("alloc_name") for z in C.walk(body_)):
+                    ok_rec = True
+        rec_by_fn[C.norm_path(a_["path"]).split("::")[-2]] = ok_rec
+    ck.expect(len(rec_by_fn) >= 2 and all(rec_by_fn.values()), rule, "dart::alloc_name/sees-through-option", str(rec_by_fn),
+              "a Dart allocator lookup no longer recurses into DiplomatOption (%s): Option<struct> / Option<slice> values reach `unwrap()` / `need allocator for slice` with None, or an optional slice "
+              "field is put into the temporary arena and freed while the returned object still borrows it" % rec_by_fn, C.loc(an[0]) if an else C.loc(dg))
+
+
 def run(ck, facts):
     core, tool = facts.core, facts.tool
     adts = facts.all_adts()
@@ -355,27 +384,4 @@ def run(ck, facts):
                       "`%s` guards a first()/last().unwrap() in %s but no longer returns early for an empty list" % (cal["path"].split("::")[-1], fkey), C.loc(cal))
     if n6 < 2:
         ck.bad("R6", "floor", "only %d guarded first()/last() unwrap sites found (2 counted)" % n6)
-    # Dart: the allocator lookup recurses into DiplomatOption
-    dg = tool.fn("dart::TyGenContext::gen_method_info")
-    an = [x for x in tool.fn_list if x["path"].endswith("::alloc_name") and "::dart::" in x["path"] and "hir" in x]
-    rec_by_fn = {}
-    for a_ in an:
-        ok_rec = False
-        for x in C.walk(C.fn_body(a_)):
-            pats = []
-            if x.get("k") == "if":
-                pats = [y["pat"] for y in C.walk(x["c"]) if y.get("k") == "let" and isinstance(y.get("pat"), dict)]
-                body_ = x["t"]
-            elif x.get("k") == "match":
-                pats = []
-                for arm in x["arms"]:
-                    if (arm["pat"].get("v") or "").split("::")[-1] == "DiplomatOption" and any(z.get("k") == "call" and (C.callee(z) or "").endswith("alloc_name") for z in C.walk(arm["b"])):
-                        ok_rec = True
-                continue
-            for p_ in pats:
-                if (p_.get("v") or "").split("::")[-1] == "DiplomatOption" and any(z.get("k") == "call" and (C.callee(z) or "").endswith("alloc_name") for z in C.walk(body_)):
-                    ok_rec = True
-        rec_by_fn[C.norm_path(a_["path"]).split("::")[-2]] = ok_rec
-    ck.expect(len(rec_by_fn) >= 2 and all(rec_by_fn.values()), "R6", "dart::alloc_name/sees-through-option", str(rec_by_fn),
-              "a Dart allocator lookup no longer recurses into DiplomatOption (%s): Option<struct> / Option<slice> values reach `unwrap()` / `need allocator for slice` with None, or an optional slice "
-              "field is put into the temporary arena and freed while the returned object still borrows it" % rec_by_fn, C.loc(an[0]) if an else C.loc(dg))
+    dart_alloc_rules(ck, "R6", facts)
